@@ -138,9 +138,9 @@ def _abstract_nc(nc, anomalies, expect=None):
     elif msg.startswith("invalid data type"):
         cls = "invalid-type"
     elif msg.startswith("c14-fail "):
-        cls = "custom" if mine(re.fullmatch(r"c14-fail (\S+) step (\d+)", msg)) else "custom-other-record"
+        cls = "custom" if mine(re.fullmatch(r"c14-fail (.+) step (\d+)", msg)) else "custom-other-record"
     elif "C14Error: boom " in msg and "Traceback" in msg:
-        cls = "exception" if mine(re.search(r"C14Error: boom (\S+) step (\d+)", msg)) else "exception-other-record"
+        cls = "exception" if mine(re.search(r"C14Error: boom (.+) step (\d+)", msg)) else "exception-other-record"
     else:
         cls = "other"
     return {"kind": "not_completed", "type": str(nc.type), "origin": origin, "msg": cls, "src": src}
